@@ -606,6 +606,28 @@ pub fn gen_loop_case(src: &mut Src, which: u32, quick: bool) -> Option<LoopCase>
   Some(LoopCase { layout: g.layout, script, family: g.family })
 }
 
+// Slow-time variants of a generated case: a *storm* (two interruptions in a row: the real loop
+// backs off with a sleep of 4 s), a *stall* (one poll - whatever it reports - returns late by
+// 60 ms .. 5.3 s, as after a stopped process or a suspend), or both. These cases really take
+// seconds; they are run on one thread each, hundreds at a time.
+pub fn make_slow(src: &mut Src, c: &mut LoopCase, quick: bool) -> &'static str {
+  let mode = src.weighted(&[40, 40, 20]);
+  if mode != 0 {
+    c.script.actions.retain(|a| !matches!(a, Action::Interrupted));
+    let arrivals: Vec<usize> = c.script.actions.iter().enumerate().filter(|(_, a)| matches!(a, Action::Arrive { .. })).map(|(i, _)| i + 1).collect();
+    let at = if !arrivals.is_empty() && src.chance(50) { src.pick(&arrivals) } else { src.below(c.script.actions.len() + 1) };
+    c.script.actions.insert(at, Action::Interrupted);
+    c.script.actions.insert(at, Action::Interrupted);
+  }
+  if mode != 1 && !c.script.actions.is_empty() {
+    let idx = src.below(c.script.actions.len());
+    let ms = if quick { src.pick(&[60u64, 150, 400, 1_200, 2_500, 5_300]) } else { src.pick(&[60u64, 150, 400, 1_200, 2_500, 5_300, 10_500]) };
+    c.script.stall = Some((idx, ms));
+  }
+  c.family = format!("{}+{}", c.family, ["stall", "storm", "storm+stall"][mode]);
+  ["stall", "storm", "storm+stall"][mode]
+}
+
 fn record(which: u32, c: &LoopCase, f: &LoopFacts, stats: &mut Stats) {
   stats.label(&format!("family:{}", c.family));
   if f.multi_event_wakeups > 0 {
@@ -880,6 +902,60 @@ pub fn check_trace_prop(which: u32, cfg: &RunCfg, findings: &Findings) -> Report
     }
     return rep;
   }
+  {
+    // slow-time slice: generated cases with a real back-off and / or a late poll, one thread each
+    let n_slow = if quick { 192 } else { 1_024 };
+    let wide = RunCfg { seed: cfg.seed, tier: cfg.tier, threads: 256 };
+    let (st, fail) = run_prop_iters(
+      &wide,
+      &format!("{}-slow", name),
+      n_slow,
+      1,
+      64,
+      1000,
+      12,
+      |src: &mut Src| {
+        let mut c = gen_loop_case(src, which, true)?;
+        if c.script.kb_events.len() > 200 {
+          return None;
+        }
+        make_slow(src, &mut c, quick);
+        Some(c)
+      },
+      |c: &Option<LoopCase>, stats: &mut Stats| {
+        let c = match c {
+          Some(c) => c,
+          None => {
+            stats.discards += 1;
+            return Ok(());
+          }
+        };
+        let mut f = LoopFacts::default();
+        match run_loop_case(which, c, &mut f) {
+          Ok(()) => {
+            record(which, c, &f, stats);
+            stats.label("slow-time-case");
+            Ok(())
+          }
+          Err(v) => {
+            if let Some(k) = findings.is_known(&name, &v) {
+              stats.known(&k.signature);
+              return Ok(());
+            }
+            Err(v)
+          }
+        }
+      },
+    );
+    rep.stats.merge(st);
+    if let Some(f) = fail {
+      if let Some(c) = f.case {
+        let path = write_replay(&name, &f.violation, &c.to_json());
+        rep.violations.push((f.violation, path));
+      }
+      return rep;
+    }
+  }
   if which == 11 {
     // stall slice: one poll blocks for seconds (stopped process, suspend) while a repeat is
     // pending; afterwards the loop must still aim at the original grid fire + delay + n*interval
@@ -925,6 +1001,82 @@ pub fn check_trace_prop(which: u32, cfg: &RunCfg, findings: &Findings) -> Report
 
 // ---- C20: fault enumeration -----------------------------------------------------------------
 
+pub fn has_storm(s: &Script) -> bool {
+  s.actions.windows(2).any(|w| matches!(w[0], Action::Interrupted) && matches!(w[1], Action::Interrupted))
+}
+
+// One run with the k-th driver call failing; Ok(true) = the fault hit after at least one write.
+fn check_fault_run(c: &LoopCase, k: usize, sends0: &[Vec<Event>]) -> Result<bool, Violation> {
+  let (res, d) = run_loop(&c.layout, &c.script, Some(k));
+  let marker = fault_marker(k);
+  let failing_call = d.calls.iter().position(|c| c.failed);
+  let what = failing_call.map(|i| call_text(&d.calls[i])).unwrap_or_default();
+  if !d.fault_hit {
+    // the run ended before call k (the call sequence differs from the fault-free run):
+    // not a fault-handling matter
+    return Ok(false);
+  }
+  match &res {
+    Ok(()) => {
+      return Err(Violation::new("error-swallowed", format!("call #{} ({}) failed with '{}' but the loop returned Ok(()) | trace: {}", k, what, marker, trace_text(&d.calls).join("; "))));
+    }
+    Err(e) => {
+      if !e.contains(&marker) {
+        return Err(Violation::new("wrong-error-returned", format!("call #{} ({}) failed with '{}' but the loop returned Err('{}') | trace: {}", k, what, marker, e, trace_text(&d.calls).join("; "))));
+      }
+    }
+  }
+  if d.calls_after_fault > 0 {
+    let idx = failing_call.unwrap_or(0);
+    if d.calls[idx + 1..].iter().any(|c| matches!(c.kind, CallKind::Send { .. })) {
+      let later: Vec<String> = d.calls[idx + 1..].iter().map(call_text).collect();
+      return Err(Violation::new("write-after-failure", format!("call #{} ({}) failed but the loop went on and wrote to the virtual keyboard: {} | trace: {}", k, what, later.join("; "), trace_text(&d.calls).join("; "))));
+    }
+  }
+  let sends: Vec<Vec<Event>> = d.calls.iter().filter_map(|c| match &c.kind { CallKind::Send { evs } if !c.failed => Some(evs.clone()), _ => None }).collect();
+  if sends.len() > sends0.len() || sends[..] != sends0[..sends.len()] {
+    if !c.script.real_sleep && c.script.stall.is_none() {
+      return Err(Violation::new("writes-differ-before-failure", format!("call #{} failed; the writes before it are not a prefix of the fault-free run's writes", k)));
+    }
+  }
+  Ok(!sends.is_empty())
+}
+
+// Storm variant: the fault-free run really backs off (4 s); then each of the (up to) 12 calls
+// that follow the second interruption fails in a run of its own, all runs in parallel.
+pub fn run_c20_storm_case(c: &LoopCase) -> Result<(u32, u32), Violation> {
+  let (_res0, d0) = run_loop(&c.layout, &c.script, None);
+  let n = d0.calls.len();
+  let sends0: Vec<Vec<Event>> = d0.calls.iter().filter_map(|c| match &c.kind { CallKind::Send { evs } if !c.failed => Some(evs.clone()), _ => None }).collect();
+  // position (1-based) of the poll that returned the second interruption in a row
+  let mut storm_end: Option<usize> = None;
+  let mut prev_interrupted = false;
+  for (i, call) in d0.calls.iter().enumerate() {
+    if let CallKind::Poll { ret, .. } = &call.kind {
+      let is_int = matches!(ret, Some(VPoll::Interrupted));
+      if is_int && prev_interrupted && storm_end.is_none() {
+        storm_end = Some(i + 1);
+      }
+      prev_interrupted = is_int;
+    }
+  }
+  let s = match storm_end {
+    Some(s) => s,
+    None => return Ok((0, 0)),
+  };
+  let ks: Vec<usize> = (s + 1..=n.min(s + 12)).collect();
+  if ks.is_empty() {
+    return Ok((0, 0));
+  }
+  let results: Vec<Result<bool, Violation>> = par_map(ks.len(), ks.len(), |i| run_guarded(|| check_fault_run(c, ks[i], &sends0).map(|_| ())).map(|_| true));
+  let mut injected = 0u32;
+  for r in results {
+    injected += 1;
+    r?;
+  }
+  Ok((injected, injected))
+}
+
 pub fn run_c20_case(c: &LoopCase, stats: Option<&mut Stats>, sample_src: Option<&mut Src>) -> Result<(u32, u32), Violation> {
   // fault-free run: counts the driver calls and records the sends
   let (res0, d0) = run_loop(&c.layout, &c.script, None);
@@ -946,40 +1098,8 @@ pub fn run_c20_case(c: &LoopCase, stats: Option<&mut Stats>, sample_src: Option<
   let mut injected = 0u32;
   let mut after_send = 0u32;
   for k in ks {
-    let (res, d) = run_loop(&c.layout, &c.script, Some(k));
     injected += 1;
-    let marker = fault_marker(k);
-    let failing_call = d.calls.iter().position(|c| c.failed);
-    let what = failing_call.map(|i| call_text(&d.calls[i])).unwrap_or_default();
-    if !d.fault_hit {
-      // the run ended before call k (the call sequence differs from the fault-free run):
-      // not a fault-handling matter
-      continue;
-    }
-    match &res {
-      Ok(()) => {
-        return Err(Violation::new("error-swallowed", format!("call #{} ({}) failed with '{}' but the loop returned Ok(()) | trace: {}", k, what, marker, trace_text(&d.calls).join("; "))));
-      }
-      Err(e) => {
-        if !e.contains(&marker) {
-          return Err(Violation::new("wrong-error-returned", format!("call #{} ({}) failed with '{}' but the loop returned Err('{}') | trace: {}", k, what, marker, e, trace_text(&d.calls).join("; "))));
-        }
-      }
-    }
-    if d.calls_after_fault > 0 {
-      let idx = failing_call.unwrap_or(0);
-      if d.calls[idx + 1..].iter().any(|c| matches!(c.kind, CallKind::Send { .. })) {
-        let later: Vec<String> = d.calls[idx + 1..].iter().map(call_text).collect();
-        return Err(Violation::new("write-after-failure", format!("call #{} ({}) failed but the loop went on and wrote to the virtual keyboard: {} | trace: {}", k, what, later.join("; "), trace_text(&d.calls).join("; "))));
-      }
-    }
-    let sends: Vec<Vec<Event>> = d.calls.iter().filter_map(|c| match &c.kind { CallKind::Send { evs } if !c.failed => Some(evs.clone()), _ => None }).collect();
-    if sends.len() > sends0.len() || sends[..] != sends0[..sends.len()] {
-      if !c.script.real_sleep {
-        return Err(Violation::new("writes-differ-before-failure", format!("call #{} failed; the writes before it are not a prefix of the fault-free run's writes", k)));
-      }
-    }
-    if !sends.is_empty() {
+    if check_fault_run(c, k, &sends0)? {
       after_send += 1;
     }
   }
@@ -1065,6 +1185,57 @@ pub fn check_c20(cfg: &RunCfg, _findings: &Findings) -> Report {
   // evaluations = injected faults (measured)
   st.evaluations = st.counters.get("faults-injected").cloned().unwrap_or(0);
   rep.stats.merge(st);
+  let mut fail = fail;
+  if fail.is_none() {
+    // generated storms: cases of the same generator with two interruptions in a row inserted
+    // anywhere; the calls after the back-off fail one at a time (parallel runs, 4 s each)
+    let n_storm = if quick { 256 } else { 1_024 };
+    let wide = RunCfg { seed: cfg.seed, tier: cfg.tier, threads: 256 };
+    let (st2, fail2) = run_prop_iters(
+      &wide,
+      "C20-storm",
+      n_storm,
+      1,
+      64,
+      1000,
+      3,
+      |src: &mut Src| {
+        // (the repeat-heavy generator of C11 for most of them: a back-off with a repeat pending
+        // and chord keys already held is where the loop has the most state to get wrong)
+        let which = if src.chance(60) { 11 } else { 20 };
+        let mut c = gen_loop_case(src, which, true)?;
+        if c.script.kb_events.len() > 200 {
+          return None;
+        }
+        c.script.actions.retain(|a| !matches!(a, Action::Interrupted));
+        // anywhere, or (half of the time) directly after an arrival
+        let arrivals: Vec<usize> = c.script.actions.iter().enumerate().filter(|(_, a)| matches!(a, Action::Arrive { .. })).map(|(i, _)| i + 1).collect();
+        let at = if !arrivals.is_empty() && src.chance(50) { src.pick(&arrivals) } else { src.below(c.script.actions.len() + 1) };
+        c.script.actions.insert(at, Action::Interrupted);
+        c.script.actions.insert(at, Action::Interrupted);
+        c.family = format!("{}+storm", c.family);
+        Some((c, Vec::<u32>::new()))
+      },
+      |c: &Option<(LoopCase, Vec<u32>)>, stats: &mut Stats| {
+        let (c, _) = match c {
+          Some(c) => c,
+          None => {
+            stats.discards += 1;
+            return Ok(());
+          }
+        };
+        let (inj, _) = run_c20_storm_case(c)?;
+        stats.count("storm-runs", 1);
+        stats.count("faults-injected-after-a-back-off", inj as u64);
+        stats.label(&format!("family:{}", c.family));
+        Ok(())
+      },
+    );
+    let extra_faults = st2.counters.get("faults-injected-after-a-back-off").cloned().unwrap_or(0);
+    rep.stats.merge(st2);
+    rep.stats.evaluations += extra_faults;
+    fail = fail2;
+  }
   if fail.is_none() {
     // interrupt-storm slice: two (three) interruptions in a row put the real loop into its
     // back-off sleep (4 s, 8 s); the call after that fails. 16 cases in parallel, one fault each.
@@ -1118,6 +1289,12 @@ pub fn check_c20(cfg: &RunCfg, _findings: &Findings) -> Report {
   }
   if let Some(f) = fail {
     if let Some((c, _)) = f.case {
+      if has_storm(&c.script) {
+        // (every run of such a case sleeps for seconds: proptest's shrinking is all it gets)
+        let path = write_replay("C20", &f.violation, &c.to_json());
+        rep.violations.push((f.violation, path));
+        return rep;
+      }
       let kind = f.violation.kind.clone();
       let fails = |c: &LoopCase| -> bool {
         match run_guarded(|| run(c)) {
@@ -1144,7 +1321,11 @@ pub fn replay(which: u32, file: &str) -> Result<(), Violation> {
   let v: Value = serde_json::from_str(&text).map_err(|e| Violation::new("io", e.to_string()))?;
   let c = LoopCase::from_json(v.get("case").unwrap_or(&v)).map_err(|e| Violation::new("io", e))?;
   if which == 20 {
-    run_guarded(|| run_c20_case(&c, None, None).map(|_| ()))
+    if has_storm(&c.script) {
+      run_guarded(|| run_c20_storm_case(&c).map(|_| ()))
+    } else {
+      run_guarded(|| run_c20_case(&c, None, None).map(|_| ()))
+    }
   } else {
     let mut f = LoopFacts::default();
     run_guarded(|| run_loop_case(which, &c, &mut f))
